@@ -322,11 +322,24 @@ func Born(tok *Tok) {
 	tok.s.park(tok.t, "born", kBorn)
 }
 
+// Done is deferred in every goroutine started from instrumented code: the
+// scheduler learns that the logical task has ended (used to tell goroutines
+// that outlive a call from ones that have finished).
+//
+//go:norace
+func Done(tok *Tok) {
+	if tok == nil || gFree.Load() {
+		return
+	}
+	tok.s.finish(tok.t)
+}
+
 // Wrap gives the function literal handed to time.AfterFunc a task identity.
 func Wrap(site string, f func()) func() {
 	tok := Spawn(site)
 	return func() {
 		Born(tok)
+		defer Done(tok)
 		f()
 	}
 }
